@@ -444,10 +444,18 @@ func main() {
 		Name: "c16life", Import: "IV.Check.C16dCheck", CaseType: "life_case",
 		Checks: []string{"life_mismatches", "life_spec_failures"},
 	}
+	cfg := &cq.Set{
+		Name: "c16cfg", Import: "IV.Check.C16eCheck", CaseType: "cfg_case",
+		Checks: []string{"cfg_mismatches", "cfg_spec_failures"},
+	}
 	extra := map[string]interface{}{}
 	if o.Replay != "" {
 		var probe map[string]interface{}
 		switch set := cq.LoadReplay(o.Replay, &probe); {
+		case set == "c16cfg" || strings.HasPrefix(set, "impl-") && probe["Opts"] != nil && probe["PX"] != nil:
+			var c cfgCase
+			cq.LoadReplay(o.Replay, &c)
+			cfg.Cases = append(cfg.Cases, runCfg(c, &fails).toCase("replay"))
 		case set == "c16life" || strings.HasPrefix(set, "impl-") && probe["Script"] != nil && probe["Ops"] != nil && probe["Writers"] == nil:
 			var c lifeCase
 			cq.LoadReplay(o.Replay, &c)
@@ -483,7 +491,7 @@ func main() {
 			cq.LoadReplay(o.Replay, &c)
 			dec.Cases = append(dec.Cases, runDec(c, &fails).toCase("replay"))
 		}
-		cq.Write(o, "replay", []*cq.Set{life, dec, e2e, fn, conc, loss}, nil, fails)
+		cq.Write(o, "replay", []*cq.Set{cfg, life, dec, e2e, fn, conc, loss}, nil, fails)
 
 		return
 	}
@@ -498,6 +506,45 @@ func main() {
 			var c lifeCase
 			cq.LoadReplay(f, &c)
 			life.Cases = append(life.Cases, runLife(c, &fails).toCase("corpus"))
+		case "c16cfg":
+			var c cfgCase
+			cq.LoadReplay(f, &c)
+			cfg.Cases = append(cfg.Cases, runCfg(c, &fails).toCase("corpus"))
+		}
+	}
+	// construction from the options in every order, default pacer / caller's leaky bucket pacer
+	{
+		probeBWE, err := gcc.NewSendSideBWE()
+		if err != nil {
+			panic(err)
+		}
+		_, cfgHook := interface{}(probeBWE).(pacerTargeter)
+		_ = probeBWE.Close()
+		extra["pacer_target_hook_present"] = cfgHook
+		ncfg := o.Scale(320, 6000)
+		cres := make([]cfgCase, ncfg)
+		cbs := make([][]string, ncfg)
+		csem := make(chan struct{}, 8)
+		var cwg sync.WaitGroup
+		var cmu sync.Mutex
+		for i := 0; i < ncfg; i++ {
+			c, b := genCfg(r, i, cfgHook)
+			cbs[i] = b
+			cwg.Add(1)
+			csem <- struct{}{}
+			go func(i int, c cfgCase) {
+				defer cwg.Done()
+				var lf []cq.ImplFailure
+				cres[i] = runCfg(c, &lf)
+				cmu.Lock()
+				fails = append(fails, lf...)
+				cmu.Unlock()
+				<-csem
+			}(i, c)
+		}
+		cwg.Wait()
+		for i, c := range cres {
+			cfg.Cases = append(cfg.Cases, c.toCase(cbs[i]...))
 		}
 	}
 	n := o.Scale(1500, 30000)
@@ -608,6 +655,9 @@ func main() {
 		"loss: updateLossEstimate sequences (0..100% loss, thresholds, empty updates, timers armed / disarmed / as the code left them); non-trivial = a branch was taken; "+
 		"life: one caller's WriteRTCP (TWCC, RFC 8888, mixed, no feedback packet) / Close / getter calls in any order on an estimator with a user-supplied pacer "+
 		"(around the NoOp or the leaky bucket pacer) whose Close reports an error the first time / every time / never / at random; results and the number of pacer Close calls per call; "+
-		"non-trivial = a WriteRTCP or a Close follows a Close; e2e (every 5th) and conc (every 3rd) run with such a failing pacer as well",
-		[]*cq.Set{life, dec, e2e, fn, conc, loss}, extra, fails)
+		"non-trivial = a WriteRTCP or a Close follows a Close; e2e (every 5th) and conc (every 3rd) run with such a failing pacer as well; "+
+		"cfg: NewSendSideBWE from its options in every order (kinds left at their default, kinds given twice, with / without logger factory), DEFAULT pacer or a caller's leaky bucket pacer, "+
+		"the rate that pacer holds after construction and after each of 0..12 decision-layer ops (hook VerifC16PacerTarget if the tree has it, and the pacer's own log line through the logger-factory option); "+
+		"non-trivial = the pacer's rate was observed",
+		[]*cq.Set{cfg, life, dec, e2e, fn, conc, loss}, extra, fails)
 }
